@@ -168,6 +168,9 @@ impl MultiProgress {
         let mut multi = self.state.write().unwrap();
         multi.remove_idx(idx);
         multi.frame_stale = true;
+        // Repaint without the removed bar: its lines would otherwise stay on the screen until
+        // some other bar happens to be drawn.
+        let _ = multi.draw(true, None, Instant::now());
     }
 
     fn internalize(&self, location: InsertLocation, pb: ProgressBar) -> ProgressBar {
